@@ -3,17 +3,20 @@ stand-ins run, the level claimed.  Each entry is a function taking a core.Run an
 U = 'pyclifford/utils.py::'
 PA = 'pyclifford/paulialg.py::'
 ST = 'pyclifford/stabilizer.py::'
+GATES = ['pyclifford/circuit.py::CliffordGate.forward#generator_global', 'pyclifford/circuit.py::CliffordGate.backward#generator_global',
+         'pyclifford/circuit.py::CliffordGate.forward#map_global', 'pyclifford/circuit.py::CliffordGate.forward#generator_global_state',
+         'pyclifford/circuit.py::CliffordGate.backward#generator_global_state', 'pyclifford/circuit.py::CliffordGate.forward#map_global_state']
 CLASS_LAYER = [PA + 'Pauli.__matmul__#Pauli', PA + 'Pauli.__neg__', PA + 'Pauli.copy', PA + 'PauliList.copy',
                PA + 'PauliList.rotate_by#nomask', PA + 'PauliList.transform_by#nomask', ST + 'CliffordMap.copy', ST + 'CliffordMap.compose',
                ST + 'CliffordMap.to_state#r', ST + 'CliffordMap.to_state#none', ST + 'StabilizerState.copy', ST + 'StabilizerState.to_map',
                ST + 'StabilizerState.expect#list', ST + 'identity_map', ST + 'StabilizerState.measure#list', ST + 'StabilizerState.postselect',
                ST + 'StabilizerState.expect#state', 'pyclifford/circuit.py::MeasureLayer.forward', PA + 'PauliList.__neg__', PA + 'PauliList.rotate_by#state', PA + 'PauliList.transform_by#state', PA + 'PauliPolynomial.__matmul__#poly', PA + 'Pauli.__matmul__#Monomial',
                'pyclifford/circuit.py::CliffordGate.forward#generator_global', 'pyclifford/circuit.py::CliffordGate.backward#generator_global',
-               'pyclifford/circuit.py::CliffordGate.forward#map_global'] + \
+               'pyclifford/circuit.py::CliffordGate.forward#map_global'] + GATES[3:] + \
               [PA + '%s.__rmul__#%s' % (c, t) for c in ('Pauli', 'PauliList') for t in ('1', 'i', 'm1', 'mi')]
 
 # every kernel that currently has a discharged contract (their frame.* obligations are the C17 frame conditions)
-MEASURE_LEMMAS = ['selacq_map', 'selacq_image', 'partnersum_acq', 'transform_preserves_acq', 'acq_diff2', 'onsite_flat', 'acq_bilinear', 'acq_antisym', 'ipow_parity', 'ordg_bits', 'acq_zero', 'ordg_acq', 'selacq_gram', 'acqsum_ext',
+MEASURE_LEMMAS = ['ordp_parity', 'xzpartial_full', 'selacq_map', 'selacq_image', 'partnersum_acq', 'transform_preserves_acq', 'acq_diff2', 'onsite_flat', 'acq_bilinear', 'acq_antisym', 'ipow_parity', 'ordg_bits', 'acq_zero', 'ordg_acq', 'selacq_gram', 'acqsum_ext',
                   'ipowsum_ext', 'symplectic_complete']
 KERNELS = [U + f for f in ('batch_dot', 'random_pair', 'pauli_diagonalize1', 'stabilizer_measure', 'stabilizer_project', 'stabilizer_postselection', 'stabilizer_projection_trace', 'acq', 'ipow', 'p0', 'ps0', 'acq_mat', 'pauli_tokenize', 'pauli_combine', 'pauli_transform',
                            'clifford_rotate', 'clifford_rotate_signless', 'map_to_state', 'state_to_map', 'front',
@@ -50,7 +53,7 @@ def C02(run):
 def C03(run):
     run.deductive(keys=[U + 'pauli_combine', U + 'pauli_transform', U + 'ps0', U + 'ipow', PA + 'PauliList.transform_by#nomask', PA + 'PauliList.transform_by#state'],
                   lemmas=['ipowsum_ext', 'ordg_bits', 'acq_zero', 'acq_bilinear', 'acq_antisym', 'acqsum_ext', 'ordg_acq', 'selacq_map', 'selacq_image',
-                          'partnersum_acq', 'transform_preserves_acq'])
+                          'partnersum_acq', 'transform_preserves_acq', 'ordp_parity', 'xzpartial_full', 'ipow_parity'])
     run.bounded_check('c03_transform', _b().c03_transform, Nmax=q(run, 2, 3), count=q(run, 25, 120))
     return 'other', ('deductive (all N): pauli_combine = ordered product (OrdG/OrdP), pauli_transform = homomorphic extension with the x.z '
                      'correction; bounded: homomorphism / unitarity, masks = embeddings, rotation map = rotation, against dense matrices')
@@ -66,7 +69,7 @@ def C04(run):
 def C05(run):
     run.deductive(keys=[U + 'stabilizer_measure', U + 'stabilizer_project', U + 'map_to_state', U + 'clifford_rotate', ST + 'CliffordMap.to_state#r',
                         ST + 'CliffordMap.to_state#none', ST + 'StabilizerState.copy', ST + 'StabilizerState.measure#list',
-                        ST + 'StabilizerState.postselect', 'pyclifford/circuit.py::MeasureLayer.forward', U + 'stabilizer_postselection', PA + 'PauliList.rotate_by#state', PA + 'PauliList.transform_by#state',
+                        ST + 'StabilizerState.postselect', 'pyclifford/circuit.py::MeasureLayer.forward', U + 'stabilizer_postselection', PA + 'PauliList.rotate_by#state', PA + 'PauliList.transform_by#state', GATES[3], GATES[4], GATES[5],
                         U + 'stabilizer_projection_trace'], lemmas=MEASURE_LEMMAS)
     run.bounded_check('c05_histories', _b().c05_histories, Nmax=3, walks=q(run, 45, 400), steps=q(run, 10, 25))
     run.bounded_check('c06_measure', _b().c06_measure, Nmax=2, count=q(run, 25, 200), reps=q(run, 2, 4))
@@ -96,18 +99,15 @@ def C08(run):
     return 'other', 'bounded: entropy against the dense von Neumann entropy of the reduced density matrix for all regions, ranks, both argument forms'
 
 
-GATES = ['pyclifford/circuit.py::CliffordGate.forward#generator_global', 'pyclifford/circuit.py::CliffordGate.backward#generator_global',
-         'pyclifford/circuit.py::CliffordGate.forward#map_global']
-
-
 def C09(run):
-    run.deductive(keys=[GATES[0], GATES[2], U + 'clifford_rotate', U + 'pauli_transform'], lemmas=[])
+    run.deductive(keys=[GATES[0], GATES[2], GATES[3], GATES[5], U + 'clifford_rotate', U + 'pauli_transform', PA + 'PauliList.rotate_by#state',
+                        PA + 'PauliList.transform_by#state'], lemmas=MEASURE_LEMMAS)
     run.bounded_check('c09_circuits', _b().c09_circuits, Nmax=3, programs=q(run, 40, 300), maxlen=q(run, 5, 8))
     return 'other', 'bounded: random gate programs in all 3x2x3 configurations against gate-by-gate application; locality of every gate'
 
 
 def C10(run):
-    run.deductive(keys=[GATES[0], GATES[1], U + 'clifford_rotate', PA + 'Pauli.__neg__'], lemmas=['rotate_twice'])
+    run.deductive(keys=[GATES[0], GATES[1], GATES[4], U + 'clifford_rotate', PA + 'Pauli.__neg__'], lemmas=['rotate_twice'])
     run.bounded_check('c10_inverse', _b().c10_inverse, Nmax=3, programs=q(run, 40, 300), maxlen=q(run, 5, 8))
     return 'other', 'bounded: backward/forward round trips of gates, layers and circuits (compiled or not) on Pauli lists and states with rank'
 
